@@ -343,6 +343,45 @@ DoCDisconnect(w, c) ==
                      EXCEPT !.proto = CProto(Tokens[x.tok])], c)
     IN [w |-> e.w, ev |-> [ev |-> "cdisconnect", c |-> c, d |-> e.d, cs0 |-> CSnap(w, c), cs1 |-> CSnap(e.w, c), panic |-> FALSE]]
 
+(***************************************************************************)
+(* Composite: one good round (harness step `pump`): every listed client    *)
+(* updates, its datagram (if it is for the live server address) reaches    *)
+(* the server, the reply reaches the client; then the server updates and   *)
+(* each datagram it emits reaches the listed client it is addressed to.    *)
+(***************************************************************************)
+PumpClient(w, c, dt) ==
+    LET r1 == DoCUpdate(w, c, dt)
+        sent == r1.ev.out.kind # "None" /\ r1.ev.out.to = 101          \* datagrams for a silent server address are lost
+        r2 == IF sent THEN DoSDeliver(r1.w, Len(r1.w.net), Clients[c].addr) ELSE [w |-> r1.w, ev |-> r1.ev]
+        replied == sent /\ r2.ev.reply.kind # "None"
+        r3 == IF replied THEN DoCDeliver(r2.w, c, Len(r2.w.net)) ELSE [w |-> r2.w, ev |-> r2.ev]
+    IN [w |-> r3.w, evs |-> <<r1.ev>> \o (IF sent THEN <<r2.ev>> ELSE <<>>) \o (IF replied THEN <<r3.ev>> ELSE <<>>)]
+
+RECURSIVE PumpClients(_, _, _)
+PumpClients(w, cs, dt) ==
+    IF cs = <<>> THEN [w |-> w, evs |-> <<>>]
+    ELSE LET r == PumpClient(w, Head(cs), dt)
+             rest == PumpClients(r.w, Tail(cs), dt)
+         IN [w |-> rest.w, evs |-> r.evs \o rest.evs]
+
+PumpServer(w, cs, dt) ==
+    LET r == DoSUpdate(w, dt)
+        n0 == Len(w.net)
+        F[k \in n0..Len(r.w.net)] ==
+            IF k = n0 THEN [w |-> r.w, evs |-> <<r.ev>>]
+            ELSE LET prev == F[k - 1]
+                     targets == {i \in 1..Len(cs) : prev.w.cl[cs[i]].addr = prev.w.net[k].to}
+                 IN IF targets = {} THEN prev
+                    ELSE LET c == cs[CHOOSE i \in targets : \A j \in targets : i <= j]
+                             x == DoCDeliver(prev.w, c, k)
+                         IN [w |-> x.w, evs |-> Append(prev.evs, x.ev)]
+    IN F[Len(r.w.net)]
+
+DoPump(w, cs, dt) ==
+    LET r1 == PumpClients(w, cs, dt)
+        r2 == PumpServer(r1.w, cs, dt)
+    IN [w |-> r2.w, evs |-> r1.evs \o r2.evs \o <<[ev |-> "round_end", cs |-> cs, panic |-> FALSE]>>]
+
 DoSetMax(w, n) ==
     LET w1 == [w EXCEPT !.maxc = n, !.slots = IF n > Len(@) THEN @ \o [i \in 1..(n - Len(@)) |-> NoConn] ELSE @]
     IN [w |-> w1, ev |-> [ev |-> "setmax", n |-> n, snap0 |-> Snap(w), snap1 |-> Snap(w1), panic |-> FALSE]]
